@@ -633,6 +633,11 @@ func (ex *Exec) store(st *State, p *PtrV, v Val) {
 		panic(abortf("write to stale array %s (%s)", p.Obj, why))
 	}
 	st.checkWrite(p.Obj)
+	if p.Obj.Merged {
+		e := abortf("in-place write to %s, an array merged from two different backing arrays", p.Obj)
+		e.mergedWrite = p.Obj
+		panic(e)
+	}
 	var root Val
 	if len(p.Path) > 0 {
 		root = ex.heapGet(st, p.Obj)
@@ -671,6 +676,9 @@ func (ex *Exec) readElem(st *State, d ArrData, elem types.Type, idx *Term) Val {
 		u := under(a.T).(*types.Struct)
 		for i := range a.F {
 			sv.F[i] = ex.readElem(st, a.F[i], u.Field(i).Type(), idx)
+		}
+		if len(ex.DB.Valids[TypeKey(a.T)]) > 0 {
+			ex.assumeValid(st, sv, a.T, 0)
 		}
 		return sv
 	case *NestedArr:
@@ -778,7 +786,10 @@ func coerce(t *Term, s Sort) *Term {
 // ---------------------------------------------------------------------------
 // aborts (tool limits: never a pass)
 
-type abortErr struct{ msg string }
+type abortErr struct {
+	msg         string
+	mergedWrite *Obj // in-place write to this merged array object (the merge is then undone)
+}
 
 func (a *abortErr) Error() string { return a.msg }
 
